@@ -17,6 +17,7 @@ prog = Program(sys.argv[1] if len(sys.argv) > 1 else "/repo")
 out = {
     "functions": sorted({fi.name for fi in prog.functions.values()}),
     "classes": sorted({ci.name for ci in prog.classes.values()}),
+    "params": {name: sorted({p for fi in prog.functions.values() if fi.name == name for p in fi.params}) for name in sorted({fi.name for fi in prog.functions.values()})},
     "globals": sorted({t.id for m in prog.modules.values() for st in m.tree.body if isinstance(st, (ast.Assign, ast.AnnAssign))
                        for t in (st.targets if isinstance(st, ast.Assign) else [st.target]) if isinstance(t, ast.Name)}),
 }
